@@ -171,6 +171,21 @@ func (g *G) DHCP() DHCPMsg {
 	if g.Chance("dhcp_hlen_other", 1, 4) {
 		hl = g.Int("dhcp_hlen", 0, 16)
 	}
+	// a third of the messages start from one of the message-type constructors (they pre-fill the hardware
+	// address and a message-type option, and use the message type as the operation code)
+	var preOpts [][2]any
+	if g.Chance("dhcp_ctor", 1, 3) {
+		hw0 := net.HardwareAddr(g.Bytes("dhcp_ctor_hw", 6))
+		ctors := []func(uint32, net.HardwareAddr) (*protocol.DHCP, error){protocol.NewDHCPDiscover, protocol.NewDHCPOffer, protocol.NewDHCPRequest, protocol.NewDHCPAck, protocol.NewDHCPNak}
+		if d, err = ctors[g.Pick("dhcp_ctor_kind", len(ctors))](xid, hw0); err != nil {
+			panic(err)
+		}
+		op = d.Operation
+		for _, o := range d.Options {
+			preOpts = append(preOpts, [2]any{o.OptionType(), cp(o.Bytes())})
+		}
+		g.Label("dhcp_from_constructor")
+	}
 	d.HardwareLen = uint8(hl)
 	d.HardwareOpts = g.U8("dhcp_hops")
 	d.Secs, d.Flags = g.U16("dhcp_secs"), g.U16("dhcp_flags")
@@ -194,6 +209,12 @@ func (g *G) DHCP() DHCPMsg {
 	w = append(append(append(w, ch...), sn...), fl...)
 	w = append(w, 0x63, 0x82, 0x53, 0x63)
 	m := DHCPMsg{Val: d}
+	for _, po := range preOpts {
+		data := po[1].([]byte)
+		w = append(w, po[0].(byte), byte(len(data)))
+		w = append(w, data...)
+		m.Opts = append(m.Opts, po)
+	}
 	n := g.ListLen("dhcp_nopts", 12)
 	for i := 0; i < n; i++ {
 		tag := byte(g.Int("dhcp_tag", 0, 254))
